@@ -189,7 +189,7 @@ def r2_r5(ctx: Ctx) -> None:
     for k in ('category', 'subcategory'):
         a = fl.atoms(vals[k], at)
         ctx.check(f'key:{data}:{k}' in a, 'C10.R2', f, f'record:{k}', f'{k} = this merchant\'s {k}', f'{k} from {sorted(a)[:6]}', vals[k])
-    ctx.check(src(inner.iter) == 'txns' and f'key:{data}:transactions' in fl.atoms(inner.iter, inner), 'C10.R2', f, 'record:source', 'records are built from this merchant\'s own transactions',
+    ctx.check(f'key:{data}:transactions' in fl.atoms(inner.iter, inner), 'C10.R2', f, 'record:source', 'records are built from this merchant\'s own transactions',
               f'records iterate {src(inner.iter)!r}', inner)
     # R5: date provenance
     a = fl.leaf_paths(vals['date'], at)
@@ -318,15 +318,30 @@ def r6(ctx: Ctx) -> None:
     proj = ctx.proj
     f = proj.func('analyzer.compute_section_totals')
     fl = get_flow(proj, f)
-    tot = [s for s in fl.cfg.stmts() if isinstance(s, ast.Assign) and src(s.targets[0]) == 'total']
-    ok = False
-    if tot and isinstance(tot[0].value, ast.Call) and call_name(tot[0].value) == 'sum' and isinstance(tot[0].value.args[0], ast.GeneratorExp):
-        g = tot[0].value.args[0]
-        ok = src(g.generators[0].iter) == f.params[0] and not g.generators[0].ifs and src(g.elt).replace(' ', '') in ("data.get('total',0)", "data['total']")
-    ctx.check(ok, 'C10.R6', f, 'total', 'view total = sum of every member\'s total', f'total = {src(tot[0].value) if tot else None!r}')
     rets = [s for s in fl.cfg.stmts() if isinstance(s, ast.Return) and isinstance(s.value, ast.Dict)]
-    rd = {k.value: src(v) for k, v in zip(rets[0].value.keys, rets[0].value.values)} if rets else {}
-    ctx.check(rd.get('total') == 'total' and rd.get('merchants') == f.params[0], 'C10.R6', f, 'return', 'returns that total with exactly the members', f'returns {rd}')
+    if not rets:
+        ctx.unknown('C10.R6', f, 'compute_section_totals does not return a dict literal')
+    rdict = {k.value: v for k, v in zip(rets[0].value.keys, rets[0].value.values) if isinstance(k, ast.Constant)}
+
+    def resolve(e):
+        # a local bound once stands for its value
+        if isinstance(e, ast.Name):
+            v = _def_of(fl, e, rets[0])
+            return v
+        return e
+    tv = resolve(rdict['total']) if 'total' in rdict else None
+    ok = False
+    if isinstance(tv, ast.Call) and call_name(tv) == 'sum' and tv.args and isinstance(tv.args[0], (ast.GeneratorExp, ast.ListComp)):
+        g = tv.args[0]
+        it = resolve(g.generators[0].iter)
+        tgt = g.generators[0].target
+        names = [tgt.id] if isinstance(tgt, ast.Name) else [e.id for e in getattr(tgt, 'elts', []) if isinstance(e, ast.Name)]
+        elt = src(g.elt).replace(' ', '')
+        ok = len(g.generators) == 1 and src(it) == f.params[0] and not g.generators[0].ifs and any(elt in (f"{v_}.get('total',0)", f"{v_}['total']") for v_ in names)
+    ctx.check(ok, 'C10.R6', f, 'total', 'view total = sum of every member\'s total', f'total = {src(tv) if tv is not None else None!r}')
+    mv = resolve(rdict['merchants']) if 'merchants' in rdict else None
+    ctx.check(tv is not None and mv is not None and src(mv) == f.params[0], 'C10.R6', f, 'return', 'returns that total with exactly the members',
+              f'returns {dict((k, src(v)[:30]) for k, v in rdict.items())}')
 
 
 def r7(ctx: Ctx) -> None:
